@@ -78,7 +78,8 @@ Section Runs.
            (rstates [FVisit 0] (init p) 0 ts).
   Proof.
     intros W. rewrite rstates_gstates.
-    eapply Forall_impl; [|exact (activation_always_upd p W req apply_req apply_req_activated apply_req_started apply_req_ints _)].
+    eapply Forall_impl; [|exact (activation_always_upd p W req apply_req apply_req_activated apply_req_started
+                                         (fun s u x H => or_introl (eq_ind _ (fun l => In x l) H _ (apply_req_ints s u))) _)].
     intros s H c q Pq K Pc Pl Sc. apply (H c q Pq Pc Sc Pl). unfold isW. now rewrite K.
   Qed.
 
